@@ -187,11 +187,14 @@ func binCase(c *Ctx, j judge, op int, xo, yo *Opnd, x, y *Dec, prec uint32, mode
 	key := func() string {
 		return fmt.Sprintf("%s x=%s y=%s prec=%d mode=%s", opNames[op], xo, yo, prec, modeName(mode))
 	}
+	gt := func() string {
+		return goTestArith(opNames[op], []string{"x", "y"}, []*Opnd{xo, yo}, prec, mode, exp, j == judgeAcc)
+	}
 	if pv != nil {
 		if exp.NaN && isNaN {
 			return
 		}
-		c.Fail(key(), fmt.Sprintf("panic: %v (expected %s)", pv, exp))
+		c.FailT(key(), fmt.Sprintf("panic: %v (expected %s)", pv, exp), gt)
 		return
 	}
 	if exp.NaN {
@@ -211,7 +214,7 @@ func binCase(c *Ctx, j judge, op int, xo, yo *Opnd, x, y *Dec, prec uint32, mode
 	switch j {
 	case judgeValue:
 		if !ok {
-			c.Fail(key(), cmpValue(o, exp))
+			c.FailT(key(), cmpValue(o, exp), gt)
 		}
 	case judgeAcc:
 		want := exp.Acc
@@ -224,7 +227,7 @@ func binCase(c *Ctx, j judge, op int, xo, yo *Opnd, x, y *Dec, prec uint32, mode
 			}
 		}
 		if o.Acc != want {
-			c.Fail(key(), fmt.Sprintf("Acc() = %d but sign(stored − exact) = %d; stored %s, model %s", o.Acc, want, o, exp))
+			c.FailT(key(), fmt.Sprintf("Acc() = %d but sign(stored − exact) = %d; stored %s, model %s", o.Acc, want, o, exp), gt)
 		}
 	}
 	if c.WantSample() {
